@@ -137,6 +137,9 @@ def run_hist(cfg):
     T, R = cfg['T'], cfg['R']
     s = Session(dict(transport=cfg['transport'], ka=cfg['ka'], T=T, R=R))
     for name in cfg['prior']:
+        if name == 'NEWLOOP':
+            s.newloop()         # the object is used again from a new event loop (successive asyncio.run() calls)
+            continue
         sc = PRIOR[name]
         if cfg['transport'] == 'tcp' and name == 'garbage-then-valid':
             sc = ['garbage']
@@ -163,13 +166,14 @@ def run_hist(cfg):
 
 def hist_configs(tier):
     import itertools
-    names = list(PRIOR)
+    names = list(PRIOR) + ['NEWLOOP']
     for tr in ('udp', 'tcp'):
         for ka in (False, True):
             for R in ((0, 2) if tier == 'thorough' else (2,)):
                 for depth in (1, 2):
                     for prior in itertools.product(names, repeat=depth):
-                        if tier != 'thorough' and depth == 2 and not (prior[0].startswith('rejected') or prior[1].startswith('rejected')):
+                        if tier != 'thorough' and depth == 2 and not (prior[0].startswith('rejected') or prior[1].startswith('rejected')
+                                                                      or 'NEWLOOP' in prior):
                             continue
                         for k in ((0, 1) if R else (0,)):
                             for delay in (0, .4, .8):
